@@ -89,7 +89,66 @@ func (p *Prog) indexAccesses() {
 					if refs == nil {
 						continue
 					}
+					// (*uint32)(&x.f) handed to sync/atomic: look through the pointer conversion
+					var all []ssa.Instruction
 					for _, r := range *refs {
+						conv, isConv := r.(*ssa.ChangeType)
+						if !isConv {
+							if cv, ok := r.(*ssa.Convert); ok {
+								if rr := cv.Referrers(); rr != nil {
+									onlyAtomic := len(*rr) > 0
+									for _, x := range *rr {
+										if ci, ok := x.(ssa.CallInstruction); ok {
+											if _, isAt := isAtomicCall(ci.Common()); isAt {
+												continue
+											}
+										}
+										onlyAtomic = false
+									}
+									if onlyAtomic {
+										for _, x := range *rr {
+											ci := x.(ssa.CallInstruction)
+											n, _ := isAtomicCall(ci.Common())
+											k := AccAtomicWrite
+											if strings.HasPrefix(n, "Load") {
+												k = AccAtomicRead
+											}
+											add(Access{Field: f, Fn: fn, Instr: x, FA: v, Kind: k})
+										}
+										continue
+									}
+								}
+							}
+							all = append(all, r)
+							continue
+						}
+						rr := conv.Referrers()
+						onlyAtomic := rr != nil && len(*rr) > 0
+						if rr != nil {
+							for _, x := range *rr {
+								if ci, ok := x.(ssa.CallInstruction); ok {
+									if _, isAt := isAtomicCall(ci.Common()); isAt {
+										continue
+									}
+								}
+								onlyAtomic = false
+							}
+						}
+						if onlyAtomic {
+							for _, x := range *rr {
+								ci := x.(ssa.CallInstruction)
+								n, _ := isAtomicCall(ci.Common())
+								k := AccAtomicWrite
+								if strings.HasPrefix(n, "Load") {
+									k = AccAtomicRead
+								}
+								add(Access{Field: f, Fn: fn, Instr: x, FA: v, Kind: k})
+							}
+							continue
+						}
+						all = append(all, r)
+					}
+					for _, r := range all {
 						switch rr := r.(type) {
 						case *ssa.Store:
 							if rr.Addr == v {
